@@ -1520,6 +1520,12 @@ let rec forallb f = function
 | [] -> true
 | a :: l0 -> (&&) (f a) (forallb f l0)
 
+(** val seq : nat -> nat -> nat list **)
+
+let rec seq start = function
+| O -> []
+| S len0 -> start :: (seq (S start) len0)
+
 type mark =
 | NM
 | PC
@@ -5588,3 +5594,131 @@ let no_bad m =
                       | Fuel -> true
                       | _ -> false)
     | _ -> true) m.log
+
+(** val mem_nat : nat -> nat list -> bool **)
+
+let mem_nat x l =
+  existsb (Coq_Nat.eqb x) l
+
+(** val add_new : nat list -> nat list -> nat list **)
+
+let add_new l acc =
+  fold_left (fun a x -> if mem_nat x a then a else x :: a) l acc
+
+(** val closure : (nat -> nat list) -> nat -> nat list -> nat list **)
+
+let rec closure succ0 fuel seen =
+  match fuel with
+  | O -> seen
+  | S f ->
+    let next = add_new (concat (map succ0 seen)) seen in
+    if Coq_Nat.eqb (length next) (length seen)
+    then seen
+    else closure succ0 f next
+
+(** val strong_targets : obj -> id0 list **)
+
+let strong_targets x =
+  app
+    (omap (Obj.magic (fun _ _ -> list_omap)) (fun a -> a)
+      (Obj.magic x.o_fields))
+    (match x.o_cleaner with
+     | Some t0 -> t0 :: []
+     | None -> [])
+
+(** val all_succ : machine -> id0 -> id0 list **)
+
+let all_succ m p =
+  match lookup0 list_lookup p m.heap with
+  | Some x -> strong_targets x
+  | None -> []
+
+(** val traced_succ : prog -> machine -> id0 -> id0 list **)
+
+let traced_succ p m p0 =
+  match lookup0 list_lookup p0 m.heap with
+  | Some x ->
+    if x.o_ismap
+    then []
+    else (match x.o_vst with
+          | VLive ->
+            if x.o_borrowed
+            then []
+            else omap (Obj.magic (fun _ _ -> list_omap)) (fun pat ->
+                   let (f, t0) = pat in if t0 then f else None)
+                   (zip_with (Obj.magic (fun x0 x1 -> (x0, x1))) x.o_fields
+                     (from_option (Obj.magic id) { c_nf = O; c_traced = [];
+                       c_nw = O; c_cleaner = false; c_fin = None; c_drop =
+                       None } (lookup0 list_lookup x.o_cls p.p_classes)).c_traced)
+          | _ -> [])
+  | None -> []
+
+(** val unreported : prog -> machine -> id0 -> obj -> id0 list **)
+
+let unreported p _ _ x =
+  let cl = match x.o_cleaner with
+           | Some t0 -> t0 :: []
+           | None -> [] in
+  if x.o_ismap
+  then strong_targets x
+  else (match x.o_vst with
+        | VLive ->
+          if x.o_borrowed
+          then strong_targets x
+          else app
+                 (omap (Obj.magic (fun _ _ -> list_omap)) (fun pat ->
+                   let (f, t0) = pat in if t0 then None else f)
+                   (zip_with (fun f i ->
+                     Obj.magic (f,
+                       (from_option (Obj.magic id) false
+                         (lookup0 list_lookup i
+                           (from_option (Obj.magic id) { c_nf = O; c_traced =
+                             []; c_nw = O; c_cleaner = false; c_fin = None;
+                             c_drop = None }
+                             (lookup0 list_lookup x.o_cls p.p_classes)).c_traced))))
+                     x.o_fields (seq O (length x.o_fields)))) cl
+        | _ -> strong_targets x)
+
+(** val pin_targets : prog -> machine -> id0 list **)
+
+let pin_targets p m =
+  concat
+    (imap (fun p0 x ->
+      match x.o_box with
+      | BFreed -> []
+      | _ ->
+        app (unreported p m p0 x)
+          (if mem_nat p0 m.dead then strong_targets x else [])) m.heap)
+
+(** val prog_roots : machine -> id0 list **)
+
+let prog_roots m =
+  app
+    (omap (Obj.magic (fun _ _ -> list_omap)) (fun a -> a) (Obj.magic m.slots))
+    (app m.bag
+      (concat
+        (omap (Obj.magic (fun _ _ -> list_omap)) (fun v ->
+          match v with
+          | Some o -> Some (all_succ m o)
+          | None -> None) (Obj.magic m.values))))
+
+(** val cover_b : prog -> machine -> bool **)
+
+let cover_b p m =
+  let n0 = S (length m.heap) in
+  let reach = closure (all_succ m) n0 (add_new (prog_roots m) []) in
+  let covered = closure (traced_succ p m) n0 (add_new m.pc []) in
+  let pinned =
+    closure (all_succ m) n0 (add_new (app (pin_targets p m) m.dead) [])
+  in
+  forallb (fun pat ->
+    let (o, x) = pat in
+    (match x.o_box with
+     | BAlloc ->
+       (match x.o_vst with
+        | VLive ->
+          (||)
+            ((||) ((||) (mem_nat o m.dead) (mem_nat o reach))
+              (mem_nat o covered)) (mem_nat o pinned)
+        | _ -> true)
+     | _ -> true)) (imap (fun o x -> (o, x)) m.heap)
